@@ -30,6 +30,7 @@ type Obl struct {
 type SubGoal struct {
 	Path, Cond T
 	Extra []string
+	Splits [][]T // optional case analysis of the path (each case proved separately, plus a coverage goal)
 }
 
 type Enc struct {
